@@ -32,7 +32,7 @@ func init() {
 		},
 		Cases: func(tier, mode string) int {
 			if tier == "thorough" {
-				return len(pairs) * 400
+				return len(pairs) * 8000
 			}
 			return len(pairs) * 12
 		},
